@@ -92,6 +92,7 @@ type Config struct {
 	KeyPoolSize     int           `json:"key_pool"`
 	Hostile         bool          `json:"hostile"`
 	StarveSome      bool          `json:"starve_some"`
+	ErrAckStep      int           `json:"err_ack_step"` // from this step on, a malicious live consumer answers one VSC packet with an error acknowledgement (0: never)
 	RetryDelay      time.Duration `json:"retry_delay"`
 	TransferTimeout time.Duration `json:"transfer_timeout"` // consumer TransferTimeoutPeriod (0 = default); deliberately different from the retry delay
 
